@@ -582,9 +582,13 @@ func ruleCacheDeposit(c *Ctx) {
 			if id, ok := m.(*ast.Ident); ok && info.Uses[id] == okObj {
 				usesOk = true
 			}
-			if b2, ok := m.(*ast.BinaryExpr); ok && b2.Op == token.LSS {
-				l := stripConv(info, b2.X)
-				if id, ok := l.(*ast.Ident); ok && info.Uses[id] == idxObj {
+			// index < count, in either spelling (count > index)
+			if b2, ok := m.(*ast.BinaryExpr); ok && (b2.Op == token.LSS || b2.Op == token.GTR) {
+				l := stripConv(info, ast.Unparen(b2.X))
+				if b2.Op == token.GTR {
+					l = stripConv(info, ast.Unparen(b2.Y))
+				}
+				if id, ok := ast.Unparen(l).(*ast.Ident); ok && info.Uses[id] == idxObj {
 					cmp = true
 				}
 			}
